@@ -128,6 +128,14 @@ class Operation:
     def res(self):
         return self.results[0]
 
+    @property
+    def operand_types(self):
+        return tuple(o.type for o in self.operands)
+
+    @property
+    def result_types(self):
+        return tuple(r.type for r in self.results)
+
     def parent_block(self):
         return self.parent
 
